@@ -18,6 +18,7 @@ type vC04World struct {
 	partsA, partsB *types.PartSet
 	idA, idB     types.BlockID
 	sigID        byte
+	vals0        *types.ValidatorSet // the validator set as of round 0 of this height
 }
 
 func vC04New() *vC04World {
@@ -34,6 +35,7 @@ func vC04New() *vC04World {
 	for i, a := range []int64{0, -3, -1, -2} {
 		w.cs.Validators.Validators[i].Accum = a
 	}
+	w.vals0 = w.cs.Validators.Copy()
 	return w
 }
 
@@ -88,6 +90,15 @@ func (w *vC04World) setRound(r int64) {
 	} else {
 		w.cs.Votes.SetRound(1)
 	}
+}
+
+// the proposer every replica computes for round r of this height
+func (w *vC04World) scheduledProposer(r int64) []byte {
+	cp := w.vals0.Copy()
+	if r > 0 {
+		cp.IncrementAccum(r)
+	}
+	return cp.Proposer().Address
 }
 
 func (w *vC04World) lock(which int, round int64) {
